@@ -23,6 +23,27 @@ def frame(rng, els, st=8, privacy=None):
     return "mgmt 0 " + hx(F.mgmt(rng, st, els, privacy=rng.random() < 0.5 if privacy is None else privacy))
 
 
+def count_cases(rng, ssid=None, st=8):
+    """declared suite counts against the suites actually present, for both lists of both element kinds, with the element
+    last in the frame (anything read beyond it leaves the parser's copy) and followed by another element; the counts
+    include every value whose product with the 4-byte suite size or whose 16-bit truncation wraps (0x4000, 0x8000, 0xC000 + n)"""
+    ssid = ssid if ssid is not None else F.el(0, b"net")
+    out = []
+    wrap = [0x3fff, 0x4000, 0x4001, 0x4006, 0x7fff, 0x8000, 0x8002, 0xc000, 0xc005, 0xfffe]
+    for declared in [0, 1, 2, 5, 6, 7, 8, 255, 256, 0x0106, 65535] + wrap:
+        for present in (0, 1, 5, 6, 7, 8):
+            for tail in ([], [F.el(3, [6])]):
+                pw = F.rand_suites(rng, "rsn", present)
+                out.append(frame(rng, [ssid, F.el(48, F.rsn_body(rng, pairwise=pw, pw_count=declared, akms=[], ak_count=0, caps=False)[:8 + 4 * present])] + tail, st=st))
+                out.append(frame(rng, [ssid, F.el(48, F.rsn_body(rng, pairwise=pw, pw_count=declared))] + tail, st=st))
+                out.append(frame(rng, [ssid, F.el(48, F.rsn_body(rng, akms=pw, ak_count=declared, caps=False))] + tail, st=st))
+                uc = F.rand_suites(rng, "wpa", present)
+                out.append(frame(rng, [ssid, F.el(221, F.wpa_body(rng, uc=uc, uc_count=declared, akms=[], ak_count=0)[:12 + 4 * present])] + tail, st=st))
+                out.append(frame(rng, [ssid, F.el(221, F.wpa_body(rng, uc=uc, uc_count=declared))] + tail, st=st))
+                out.append(frame(rng, [ssid, F.el(221, F.wpa_body(rng, akms=uc, ak_count=declared))] + tail, st=st))
+    return out
+
+
 def gen_cases(tier, seed):
     rng = random.Random(seed)
     q = tier == "quick"
@@ -40,14 +61,7 @@ def gen_cases(tier, seed):
                 cases.append(frame(rng, [ssid, F.el(221, F.wpa_body(rng, mc=g, uc=pw, akms=ak))], st=BSS_SUBTYPES[(sel + 1) % 4]))
     n_single = len(cases)
     # counts versus suites present
-    for declared in (0, 1, 2, 5, 6, 7, 8, 255, 256, 0x0106, 65535):
-        for present in (0, 1, 5, 6, 7, 8):
-            pw = F.rand_suites(rng, "rsn", present)
-            cases.append(frame(rng, [ssid, F.el(48, F.rsn_body(rng, pairwise=pw, pw_count=declared))]))
-            cases.append(frame(rng, [ssid, F.el(48, F.rsn_body(rng, akms=pw, ak_count=declared))]))
-            uc = F.rand_suites(rng, "wpa", present)
-            cases.append(frame(rng, [ssid, F.el(221, F.wpa_body(rng, uc=uc, uc_count=declared))]))
-            cases.append(frame(rng, [ssid, F.el(221, F.wpa_body(rng, akms=uc, ak_count=declared))]))
+    cases += count_cases(rng, ssid)
     # truncation at every byte
     for _ in range(6 if q else 60):
         full = F.rsn_body(rng, pairwise=F.rand_suites(rng, "rsn", 2), akms=F.rand_suites(rng, "rsn", 2))
